@@ -373,8 +373,14 @@ func (g *hdGen) mediaOp(c int) hdOp {
 		return hdOp{K: "media", C: c, Mk: "requestoffer", Stream: pick(r, []string{"video", "screen"}),
 			To: &hdRecipient{T: "session", Id: &hdIdRef{T: "pub", C: g.pickConn()}}}
 	case 7:
-		return hdOp{K: "media", C: c, Mk: "candidate", Stream: pick(r, []string{"video", "screen"}),
+		o := hdOp{K: "media", C: c, Mk: "candidate", Stream: pick(r, []string{"video", "screen"}),
 			To: &hdRecipient{T: "session", Id: &hdIdRef{T: "pub", C: g.pickConn()}}}
+		if g.opts.perms && r.chance(60) {
+			// for its own stream (that is the one the publish permissions decide), any stream type
+			o.To = &hdRecipient{T: "session", Id: &hdIdRef{T: "pub", C: c}}
+			o.Stream = pick(r, []string{"video", "screen", "screen", "audio"})
+		}
+		return o
 	default:
 		if g.gated {
 			return hdOp{K: "mcudone", Tok: 0, Res: pick(r, []string{"ok", "ok", "ok", "fail"})}
